@@ -56,10 +56,19 @@ def _assign_defs(fn):
     return m
 
 
-def origins(fn, op, depth=10, through_calls=True, _seen=None, visit=None):
+KEEP_SELECTORS = re.compile(
+    r"Clone>::clone$|^core::clone::Clone::clone$|Deref(Mut)?>::deref(_mut)?$|Borrow(Mut)?<.*>>::borrow(_mut)?$|"
+    r"^core::option::Option::(as_ref|as_mut|cloned|copied|as_deref|as_deref_mut|take|ok_or|ok_or_else)$|"
+    r"^core::result::Result::(as_ref|as_mut|ok|cloned|copied)$|Try>::branch$|ToOwned>::to_owned$|"
+    r"(AsRef|AsMut)<.*>>::(as_ref|as_mut)$")
+
+
+def origins(fn, op, depth=10, through_calls=True, _seen=None, visit=None, _pend=()):
     """backward provenance of an operand (or {'l':..,'p':..} place / int local):
     follows copies, moves, refs, derefs, field projections, no-op casts, tuple/adt aggregates and
-    (optionally) transparent adapter calls; returns a list of Origin leaves."""
+    (optionally) transparent adapter calls; returns a list of Origin leaves.
+    Field sensitive: the field / downcast selectors of the place asked for are carried along the copies (`_pend`) and select the one
+    operand of an aggregate they name - `let S { left, right } = S::new(a, b)` traces `left` to `a` only."""
     if _seen is None:
         _seen = set()
     if isinstance(op, int):
@@ -75,38 +84,40 @@ def origins(fn, op, depth=10, through_calls=True, _seen=None, visit=None):
     l = place["l"]
     if visit is not None:
         visit(place)
-    key = (l, len(place["p"]))
+    sel = tuple(e for e in place["p"] if isinstance(e, dict)) + tuple(_pend)
+    key = (l, len(place["p"]), len(_pend))
     if key in _seen or depth <= 0:
         return [Origin("unknown", extra="depth")]
     _seen = _seen | {key}
+    full = place if not _pend else {"l": l, "p": list(place["p"]) + list(_pend)}
     if 1 <= l <= fn.arg_count:
-        return [Origin("arg", arg=l, place=place)]
+        return [Origin("arg", arg=l, place=full)]
     res = []
     adefs = _assign_defs(fn).get(l, [])
     cdefs = _call_defs(fn).get(l, [])
     if not adefs and not cdefs:
-        return [Origin("place", place=place, extra=place_str(fn, place))]
+        return [Origin("place", place=full, extra=place_str(fn, place))]
     for (_, s) in adefs:
         rv = s["rv"]
         k = rv["k"]
         if k == "use":
-            res += origins(fn, rv["op"], depth - 1, through_calls, _seen, visit)
+            res += origins(fn, rv["op"], depth - 1, through_calls, _seen, visit, sel)
         elif k in ("ref", "copy_for_deref", "rawptr"):
-            res += origins(fn, rv["pl"], depth - 1, through_calls, _seen, visit)
+            res += origins(fn, rv["pl"], depth - 1, through_calls, _seen, visit, sel)
         elif k == "cast":
             if rv["ck"] in ("IntToInt", "FloatToInt", "IntToFloat", "FloatToFloat") and rv["from"] != rv["to"]:
                 res.append(Origin("cast", extra="%s->%s" % (rv["from"], rv["to"]), place=rv["op"]))
             else:
-                res += origins(fn, rv["op"], depth - 1, through_calls, _seen, visit)
+                res += origins(fn, rv["op"], depth - 1, through_calls, _seen, visit, sel)
         elif k == "aggr":
-            # projection into the aggregate selects one operand when the place has a field projection
-            fld = None
-            for e in place["p"]:
-                if isinstance(e, dict) and "f" in e:
-                    fld = e["f"]
+            # the first field selector picks one operand of the aggregate; what follows it applies to that operand
+            fi = None
+            for n_, e in enumerate(sel):
+                if "f" in e:
+                    fi = n_
                     break
-            if fld is not None and fld < len(rv["ops"]) and rv.get("ak") in ("tuple", "adt", "closure"):
-                res += origins(fn, rv["ops"][fld], depth - 1, through_calls, _seen, visit)
+            if fi is not None and sel[fi]["f"] < len(rv["ops"]) and rv.get("ak") in ("tuple", "adt", "closure"):
+                res += origins(fn, rv["ops"][sel[fi]["f"]], depth - 1, through_calls, _seen, visit, sel[fi + 1:])
             else:
                 res.append(Origin("aggr", extra=rv.get("ak"), place=place))
                 for o in rv["ops"]:
@@ -122,7 +133,7 @@ def origins(fn, op, depth=10, through_calls=True, _seen=None, visit=None):
     for c in cdefs:
         res.append(Origin("call", call=c))
         if through_calls and TRANSPARENT.search(short(c.name)) and c.args:
-            res += origins(fn, c.args[0], depth - 1, through_calls, _seen, visit)
+            res += origins(fn, c.args[0], depth - 1, through_calls, _seen, visit, sel if KEEP_SELECTORS.search(short(c.name)) else ())
     return res
 
 
